@@ -34,6 +34,10 @@ import (
 //     nil / make / append of those, is unresolvable;
 //   - everything else called through a value is unresolvable.
 //
+// Waiting for other goroutines (channel send / receive / select / range over a channel, Wait() of WaitGroup, errgroup,
+// Cond) counts as unresolvable too: the Lean model assumes that a thread inside a critical section does not wait for
+// anything but the lock.
+//
 // `unknown` is emitted for an unresolvable call (or a call to a function that transitively contains one) only where
 // it can run while the lock is held: syntactically between an acquire and its release, or anywhere in a function that
 // is itself (transitively) called from such a place.
@@ -71,6 +75,7 @@ type lockExtractor struct {
 	muTotal   int                       // selections of MultiEpoch.mu
 	muKnown   int                       // … of which are the receiver of a recognised Lock/Unlock/RLock/RUnlock call
 	encl      map[*ast.FuncLit]string   // enclosing function name of a literal (for naming)
+	muField   *types.Var                // the field MultiEpoch.mu
 }
 
 func unparen(e ast.Expr) ast.Expr {
@@ -130,13 +135,14 @@ func isIfaceMethod(fn *types.Func) bool {
 	return types.IsInterface(sig.Recv().Type())
 }
 
+func (x *lockExtractor) isMuField(id *ast.Ident) bool {
+	fv, ok := x.info.Uses[id].(*types.Var)
+	return ok && x.muField != nil && fv == x.muField
+}
+
 func (x *lockExtractor) isMu(sel *ast.SelectorExpr) bool {
 	inner, ok := unparen(sel.X).(*ast.SelectorExpr)
-	if !ok || inner.Sel.Name != "mu" {
-		return false
-	}
-	n := namedOf(x.info.TypeOf(inner.X))
-	return n != nil && n.Obj().Name() == "MultiEpoch" && isMainObj(n.Obj())
+	return ok && x.isMuField(inner.Sel)
 }
 
 // ifaceCandidates: methods `name` of package-main named types implementing the interface `it`.
@@ -331,6 +337,11 @@ func (x *lockExtractor) callItem(c *ast.CallExpr) (litem, bool) {
 			if isMainObj(o) {
 				return litem{kind: "call", callees: []string{funcName(o)}, end: c.End()}, true
 			}
+			// waiting for other goroutines (sync.WaitGroup.Wait, errgroup.Group.Wait, sync.Cond.Wait): if that happens while
+			// the lock is held, progress depends on threads that may need the lock
+			if o.Name() == "Wait" && o.Type().(*types.Signature).Recv() != nil {
+				return litem{kind: "dyn", unresolved: true, end: c.End()}, true
+			}
 			// function of another package: values of package-main types handed to it may be called back
 			var ms []string
 			for _, a := range c.Args {
@@ -413,11 +424,27 @@ func (x *lockExtractor) body(name string, b *ast.BlockStmt) []litem {
 					*out = append(*out, it)
 				}
 				return true
-			case *ast.SelectorExpr:
-				if v.Sel.Name == "mu" {
-					if n := namedOf(x.info.TypeOf(v.X)); n != nil && n.Obj().Name() == "MultiEpoch" && isMainObj(n.Obj()) {
-						x.muTotal++
+			case *ast.SendStmt:
+				*out = append(*out, litem{kind: "dyn", unresolved: true, end: v.End()})
+				return true
+			case *ast.SelectStmt:
+				*out = append(*out, litem{kind: "dyn", unresolved: true, end: v.Pos()})
+				return true
+			case *ast.UnaryExpr:
+				if v.Op == token.ARROW {
+					*out = append(*out, litem{kind: "dyn", unresolved: true, end: v.End()})
+				}
+				return true
+			case *ast.RangeStmt:
+				if t := x.info.TypeOf(v.X); t != nil {
+					if _, isChan := t.Underlying().(*types.Chan); isChan {
+						*out = append(*out, litem{kind: "dyn", unresolved: true, end: v.X.End()})
 					}
+				}
+				return true
+			case *ast.SelectorExpr:
+				if x.isMuField(v.Sel) {
+					x.muTotal++
 				}
 				if fn, ok := x.info.Uses[v.Sel].(*types.Func); ok {
 					skipIdent[v.Sel] = true
@@ -474,6 +501,18 @@ func genLockPrograms() {
 		}
 	}
 	sort.Slice(x.mainTypes, func(i, j int) bool { return x.mainTypes[i].Pos() < x.mainTypes[j].Pos() })
+	if tn, ok := p.Types.Scope().Lookup("MultiEpoch").(*types.TypeName); ok {
+		if st, ok := tn.Type().Underlying().(*types.Struct); ok {
+			for i := 0; i < st.NumFields(); i++ {
+				if st.Field(i).Name() == "mu" {
+					x.muField = st.Field(i)
+				}
+			}
+		}
+	}
+	if x.muField == nil {
+		fails = append(fails, "type MultiEpoch with a field `mu` not found in package main")
+	}
 
 	type decl struct {
 		name string
